@@ -262,6 +262,40 @@ func (x *Exec) mergeStates(all []*State, base, nuniv int, join *ssa.BasicBlock) 
 		}
 		m.env[k] = mergeValues(all, guards, func(st *State) Value { return st.env[k] })
 	}
+	// errors reported by callees: a branch that did not see the call says nothing
+	m.errSeen = nil
+	{
+		sites := map[string]bool{}
+		for _, st := range all {
+			for k := range st.errSeen {
+				sites[k] = true
+			}
+		}
+		for k := range sites {
+			var parts []string
+			same, first := true, ""
+			for i, st := range all {
+				c, ok := st.errSeen[k]
+				if !ok {
+					c = "true"
+				}
+				if i == 0 {
+					first = c
+				} else if c != first {
+					same = false
+				}
+				parts = append(parts, imp(guards[i], c))
+			}
+			if m.errSeen == nil {
+				m.errSeen = map[string]string{}
+			}
+			if same {
+				m.errSeen[k] = first
+			} else {
+				m.errSeen[k] = and(parts...)
+			}
+		}
+	}
 	// source-level names: kept where every branch agrees on what the name means
 	m.names = map[string]nameBind{}
 	for n, nb := range all[0].names {
